@@ -4552,6 +4552,14 @@ func (t *Terminal) Loop() error {
 						// Goroutine 3 is responsible for cancelling running preview command
 						go func(version int64) {
 							timer := time.NewTimer(previewDelayed)
+							// The request to cancel this command may have been sent before
+							// we started listening. A newer preview request is waiting then.
+							killChan := t.killChan
+							if t.previewBox.Peek(reqPreviewEnqueue) {
+								missed := make(chan bool, 1)
+								missed <- false
+								killChan = missed
+							}
 						Loop:
 							for {
 								select {
@@ -4559,7 +4567,11 @@ func (t *Terminal) Loop() error {
 									break Loop
 								case <-timer.C:
 									t.reqBox.Set(reqPreviewDelayed, version)
-								case immediately := <-t.killChan:
+									if t.previewBox.Peek(reqPreviewEnqueue) {
+										util.KillCommand(cmd)
+										break Loop
+									}
+								case immediately := <-killChan:
 									if immediately {
 										util.KillCommand(cmd)
 									} else {
